@@ -81,7 +81,9 @@ def gen_ops(ctx):
                 w, h = r.range(1, 5), r.range(1, 4)
                 vals = [rand_chan(r, sd) for _ in range(r.range(3, 23))]
                 ops.append("ccv %s %s %d %d %s" % (s, t, w, h, " ".join(map(str, vals))))
-    # 6. exhaustive planes: all 2^24 rgb8 pixels (256 planes), rgba8 (r,a) planes for several (g,b)
+    # 6. the double-scale table of rgb8 -> cmyk8: all 255 rows of the real code against the table the theorems are about
+    for k in range(255): ops.append("cmykrow %d" % k)
+    # 7. exhaustive planes: all 2^24 rgb8 pixels (256 planes), rgba8 (r,a) planes for several (g,b)
     planes = list(range(256))
     for rr in planes: ops.append("sweep8 %d" % rr)
     gb = [(0, 0), (255, 255), (128, 64), (1, 254)] + [(r.below(256), r.below(256)) for _ in range(28 if th else 4)]
@@ -91,7 +93,7 @@ def gen_ops(ctx):
 def group_of(op):
     w = op.split()
     if w[0] in ("cc", "ccv"): return ORDER.index(w[1]) % NGROUPS if w[1] in ORDER else 0
-    return (int(w[1]) if w[0] == "sweep8" else len(op)) % NGROUPS
+    return (int(w[1]) if w[0] in ("sweep8", "cmykrow") else len(op)) % NGROUPS
 
 def nontrivial(op):
     w = op.split()
@@ -156,7 +158,7 @@ def run(ctx, ops=None):
             if not ctx.failures:
                 ctx.broken.append(("correspondence", sweeps[0]["op"], "sweep verdict %s but no single pixel of the plane fails the Spec" % sweeps[0]["clause"]))
         distinct = len({o for o in ops if nontrivial(o)})
-        pixels = sum(65536 if o.startswith("sweep") else (int(o.split()[7]) if o.startswith("lumax") else 1) for o in ops)
+        pixels = sum(65536 if o.startswith("sweep") else (int(o.split()[7]) if o.startswith("lumax") else (256 - int(o.split()[1]) if o.startswith("cmykrow") else 1)) for o in ops)
         ctx.cov["pixels_judged"] = pixels
         ctx.cov["type_pairs"] = len({(o.split()[1], o.split()[2]) for o in ops if o.startswith("cc")})
         for i in (0, len(ops) // 3, 2 * len(ops) // 3, len(ops) - 1):
@@ -170,7 +172,8 @@ def run(ctx, ops=None):
         samples=samples, distinct_nontrivial=distinct, assumptions=ASSUME, trusted_base=vlib.TRUSTED_BASE,
         extra={"pixels_judged": pixels, "type_pairs": ctx.cov.get("type_pairs", 0), "rgb8_planes_swept": n8,
                "exhaustive_domains": ["all 2^24 rgb8 pixels -> gray8, cmyk8 -> rgb8 (judge recomputes every output in Lean; implementation plane accepted by hash equality)",
-                                      "all 65536 (r,a) of rgba8 for each listed (g,b)", "all 256 gray8 values", "cmyk8 axes on a 3-level grid"]},
+                                      "all 65536 (r,a) of rgba8 for each listed (g,b)", "all 256 gray8 values", "cmyk8 axes on a 3-level grid",
+                                      "all 32895 entries of the rgb8->cmyk8 scale table (real code == table of Model/C09Table.lean)"]},
         exhaustive=False)
 
 def replay(ctx, path):
